@@ -43,7 +43,7 @@ PROPS = {
         rule=("case = one call of a normalisation entry point (entry, N, k, res_size, a_size, strides, operand family, "
               "in-place flag, range triple, dispatch) or one exhaustive window / primitive batch; distinct by descriptor "
               "hash; non-trivial when at least one inter-limb carry is non-zero (digit differs from the isolated digit)"),
-        require={"all": ["coefficients_checked", "primitive_values_checked", "exhaustive_limb_combinations",
+        require={"all": ["concurrent_entry_calls", "coefficients_checked", "primitive_values_checked", "exhaustive_limb_combinations",
                          "cases_with_interlimb_carry"]},
         assumptions=["digit oracle: 1024-bit two's-complement integers, centred remainders from the least significant end",
                      "carry_in of the primitive restricted to |c| < 2^(63-k) (digit + carry cannot overflow int64)", ASAN_NOTE],
@@ -64,7 +64,7 @@ PROPS = {
         rule=("case = one product through one FFT64 path (small single product | svp_prepare+svp_apply_dft+idft | "
               "...+idft_tmp_a) for (N, operand family, dispatch, res/a limb counts, stride, repetition); distinct by "
               "descriptor hash; non-trivial when both operands are non-zero, N >= 4 and at least one row is produced"),
-        require={"all": ["products_checked", "exact_regime_products", "budget_regime_products", "frontier_products", "lifecycle_products", "idft_variant:idft(res==a_dft),short-dft",
+        require={"all": ["concurrent_entry_calls", "products_checked", "exact_regime_products", "budget_regime_products", "frontier_products", "lifecycle_products", "idft_variant:idft(res==a_dft),short-dft",
                          "zero_rows_checked", "oracle_selfcheck_ok"]},
         assumptions=["exact oracle: schoolbook with 128-bit accumulators, or an oracle-side NTT modulo a 62-bit prime "
                      "(cross-checked against schoolbook at start-up)",
@@ -132,8 +132,8 @@ PROPS = {
         rule=("case = (layout reim|cplx, fft|ifft, implementation, m, input family, repetition); each case runs the "
               "transform twice on a guarded exact-size buffer; distinct by descriptor hash; non-trivial when m >= 2 "
               "and the input is non-zero"),
-        require={"all": ["transforms_checked", "horner_validations", "impl:dispatch-native", "impl:dispatch-generic",
-                         "impl:ref-direct", "impl:avx2-direct", "impl:leaf-avx", "impl:leaf-ref", "impl:bfs16-ref", "impl:builtin-buffers", "impl:naive", "tables_built_concurrently", "cold_process_constructions",
+        require={"all": ["concurrent_entry_calls", "transforms_checked", "horner_validations", "impl:dispatch-native", "impl:dispatch-generic",
+                         "impl:ref-direct", "impl:avx2-direct", "impl:leaf-avx", "impl:leaf-ref", "impl:bfs16-ref", "impl:builtin-buffers", "impl:naive", "tables_built_concurrently", "cold_process_constructions", "table_lifecycle_checks",
                          "impl:rec16-ref"]},
         assumptions=["long-double FFT oracle (own twiddles by cosl/sinl), its rounding (about log2(m) 2^-64 relative) "
                      "added to the tolerance; validated per case against __float128 Horner evaluation at sampled outputs",
@@ -165,7 +165,7 @@ PROPS = {
               "sampled block indices; layout round trip (m, variant); dot product (1|2 columns, ref|avx2, nrows, value "
               "family); pointwise mul/addmul (layout, variant, m, family, aliasing); convolution (sizea, sizeb) over all "
               "windows; distinct by descriptor hash; non-trivial when at least one row / term / operand is non-empty"),
-        require={"all": ["blocks_checked", "layout_roundtrips", "dot_products", "pointwise_vectors",
+        require={"all": ["concurrent_entry_calls", "blocks_checked", "layout_roundtrips", "dot_products", "pointwise_vectors",
                          "convolution_windows", "fftvec:cplx:avx512", "fftvec:cplx:sse", "fftvec:reim4:fma", "simple_api_calls"]},
         assumptions=["complex-arithmetic oracle in long double with the rounding budgets of DESIGN Appendix A",
                      "the inner order of the four numbers of a reim4 block produced by reim4_from_cplx is not "
@@ -267,7 +267,7 @@ PROPS = {
               "interpreter as soon as it is produced; distinct by descriptor hash; non-trivial when the program contains "
               "a DFT-space product and a coefficient-space operation on an inverse-DFT result (FFT64) or a dft/idft round "
               "trip (NTT120)"),
-        require={"all": ["programs", "operations_executed", "op:vmp_apply_dft_to_dft", "op:svp_apply_dft",
+        require={"all": ["concurrent_entry_calls", "programs", "operations_executed", "op:vmp_apply_dft_to_dft", "op:svp_apply_dft",
                          "op:vec_znx_idft_tmp_a", "op:vec_znx_big_range_normalize_base2k",
                          "edge:svp_apply_dft->vmp_apply_dft_to_dft", "edge:vmp_apply_dft_to_dft->vec_znx_idft",
                          "edge:vec_znx_idft->vec_znx_big_normalize_base2k"]},
